@@ -1,3 +1,4 @@
+pub mod connsuites;
 pub mod headers;
 pub mod response;
 pub mod router;
